@@ -81,6 +81,7 @@ def x12n_document(param, src_file, fd_997, fd_html,
     node = control_map.getnodebypath('/ISA_LOOP/ISA')
     walker = walk_tree()
     icvn = fic = vriic = tspc = None
+    ack_vriic = None
     cur_map = None  # we do not initially know the X12 transaction type
     #XXX Generate TA1 if needed.
 
@@ -151,6 +152,9 @@ def x12n_document(param, src_file, fd_997, fd_html,
             elif seg.get_seg_id() == 'GS':
                 fic = seg.get_value('GS01')
                 vriic = seg.get_value('GS08')
+                if fic != 'FA':
+                    # a group to be acknowledged
+                    ack_vriic = vriic
                 map_file_new = map_index_if.get_filename(icvn, vriic, fic)
                 if map_file != map_file_new:
                     map_file = map_file_new
@@ -273,7 +277,8 @@ def x12n_document(param, src_file, fd_997, fd_html,
     #errh.accept(visit_debug)
 
     #If this transaction is not a 997/999, generate one.
-    if fd_997 and fic != 'FA':
+    if fd_997 and ack_vriic is not None:
+        vriic = ack_vriic
         if vriic and vriic[:6] == '004010':
             try:
                 visit_997 = pyx12.error_997.error_997_visitor(fd_997, src.get_term())
